@@ -187,6 +187,23 @@ var noInitPkgs = map[string]bool{
 	"internal/oserror": true, "internal/testlog": true, "errors": true, "internal/abi": true, "unsafe": true, "encoding/json": true, "log": true,
 }
 
+// initAllowed: package initialisers are interpreted only for knut's own
+// packages and a small allowlist of pure-Go libraries whose package-level
+// tables the interpreted code needs. Everything else keeps zero-valued globals
+// (their functions are intercepted or only touch state they build themselves).
+func initAllowed(path string) bool {
+	if strings.HasPrefix(path, "github.com/sboehler/knut") {
+		return true
+	}
+	switch path {
+	case "unicode", "unicode/utf8", "strings", "strconv", "sort", "bytes", "bufio", "io", "math", "math/bits",
+		"cmp", "slices", "maps", "golang.org/x/exp/slices", "golang.org/x/exp/constraints", "golang.org/x/exp/maps",
+		"container/heap", "container/list", "encoding/csv", "path", "go.uber.org/multierr":
+		return true
+	}
+	return false
+}
+
 func (in *Interp) ensureInit(pkg *ssa.Package) {
 	if pkg == nil || in.inited[pkg] {
 		return
@@ -200,7 +217,7 @@ func (in *Interp) ensureInit(pkg *ssa.Package) {
 			}
 		}
 	}
-	if noInitPkgs[pkg.Pkg.Path()] {
+	if !initAllowed(pkg.Pkg.Path()) {
 		return
 	}
 	initFn := pkg.Func("init")
